@@ -1,41 +1,126 @@
 ID = "C34"
 LEVEL = "model_checking"
-TECHNIQUE = "CBMC bounded symbolic execution of evdns.c request life-cycle steps on an evdns_base built through the API; event core, sockets, bufferevents as recorders"
+TECHNIQUE = ("CBMC bounded symbolic execution of evdns.c's request life-cycle routines as unit steps on an evdns_base built through the "
+             "library's own API (evdns_base_new, evdns_base_set_option, evdns_nameserver_add_impl_, evdns_base_resolve_ipv4); event core, "
+             "sockets and bufferevents are recorders (env/dns_unit_env.h); typed heap objects (env/dns_typed_alloc_*.h)")
 UNITS = ["evdns.c"]
 FUNCTIONS = ["request_finished", "reply_schedule_callback", "reply_run_callback", "reply_handle", "evdns_cancel_request",
              "evdns_request_timeout_callback", "retransmit_all_tcp_requests_for", "client_retransmit_through_tcp",
              "evdns_requests_pump_waiting_queue", "evdns_base_free_and_unlock", "transaction_id_pick", "request_find_from_trans_id",
-             "request_new", "request_clone", "request_submit", "evdns_request_transmit", "nameserver_pick", "nameserver_failed",
-             "request_reissue", "evdns_base_resolve_ipv4"]
-BOUNDS = ""
-OUT = ""
-TEXT = ""
-NOTE = ""
-ASSUMPTIONS = []
-DESIGN_REF = "DESIGN.md §5 C34"
+             "request_new", "request_clone", "request_submit", "evdns_request_transmit", "evdns_request_transmit_to",
+             "evdns_request_transmit_through_tcp", "nameserver_pick", "nameserver_failed", "nameserver_up", "request_reissue",
+             "request_swap_ns", "evdns_base_resolve_ipv4", "evdns_nameserver_free"]
+BOUNDS = ("1-2 nameservers, 1-2 A requests for the name \"a\" (DNS_QUERY_NO_SEARCH), max-inflight 1 or 2 (one request bucket), attempts 1 or 2; "
+          "one step (cancel / timer expiry x<=2 / one reply / base free / id pick) per obligation; which request the step hits, reply class "
+          "(rcode, TC, answer present) and fail_requests are enumerated per obligation; transaction_id_pick: solver-chosen RNG bytes, a usable "
+          "id at the latest on the 3rd draw")
+OUT = ("whole exchanges over sockets, probing of failed nameservers, search-domain iteration (search_try_next), PTR/AAAA/CNAME-callback "
+       "requests (reply_run_callback calls the user twice for DNS_CNAME_CALLBACK by design), evdns_getaddrinfo fan-out (C38), reply header "
+       "bits other than RCODE/TC (fixed to 0x8180), more than one request bucket (max-inflight > 5), reply parsing (C33), TCP byte streams, "
+       "threads")
+TEXT = ("On every examined step the user callback of a request runs at most once, exactly once (with the documented code: result, "
+        "DNS_ERR_CANCEL, DNS_ERR_TIMEOUT, DNS_ERR_SHUTDOWN, the reply's error) when the step terminates the request and not at all while "
+        "it goes on; the request tables stay consistent (counters == lists, per-nameserver accounting, distinct ids, nothing left waiting "
+        "while there is room, every inflight request has a timer or a transmission due); evdns_base_free leaves no pending event and no "
+        "leak, and the callbacks it scheduled touch no freed memory; transaction_id_pick never returns 0xffff or an inflight id.")
+NOTE = ("Findings: KF-C34-tcp-retransmit-uaf (retransmit_all_tcp_requests_for reads req->next of a request it has just freed: NULL "
+        "dereference / use after free when a TCP request that used up its transmissions shares the nameserver with one whose timer fires), "
+        "KF-C34-tcp-fallback-stall (a truncated reply while max-inflight requests are inflight parks the TCP retry in the waiting queue "
+        "after the queue was pumped: it waits for an unrelated request to finish, for ever if there is none).  'No callback after the base "
+        "is freed' is read as: evdns_base_free deletes every event it owns; the DNS_ERR_SHUTDOWN / DNS_ERR_CANCEL notifications it leaves "
+        "scheduled are deferred callbacks that only touch their own handle.")
+ASSUMPTIONS = ["pre-state transaction ids are the concrete distinct values 0x1001, 0x1002, ... (cbmc does not fold id % 1; the id only selects the bucket and there is one bucket)",
+               "socket sends succeed completely, event_add/bufferevent operations succeed (recorders)",
+               "the RNG yields an acceptable transaction id at the latest on the third draw",
+               "allocation does not fail"]
+DESIGN_REF = "DESIGN.md §5 C34, §3.2, §3.9"
+
+US = ["transaction_id_pick.2:4", "nameserver_pick.3:4", "vpe_strlen.0:26", "vpe_strncmp.0:26", "vpd_calloc.0:15",
+      "evdns_base_set_max_requests_inflight.4:15", "vpd_memcpy.0:130", "vpd_memcpy_var.0:30", "vpd_memset.0:130", "vpe_memcpy.0:30", "vpd_check_write.0:10"]
 
 def ob(name, entry, desc, nns=1, nreq=2, maxinf=2, attempts=1, tcp=False, extra=(), **kw):
     defs = ["C34_NNS=%d" % nns, "C34_NREQ=%d" % nreq, "C34_MAXINFLIGHT=%d" % maxinf, "C34_ATTEMPTS=%d" % attempts] + (["C34_TCP"] if tcp else []) + list(extra)
-    d = dict(name=name, harness="C34_lifecycle.c", entry=entry, desc=desc, defines=defs, unwind=5,
-             cbmc=["--memory-leak-check", "--object-bits", "10", "--max-field-sensitivity-array-size", "136"], timeout=900, mem_gb=4,
-             unwindset=["transaction_id_pick.2:4", "nameserver_pick.3:4", "vpe_strlen.0:26", "vpe_strncmp.0:26", "vpd_calloc.0:15",
-                        "evdns_base_set_max_requests_inflight.4:15", "vpd_memcpy.0:130", "vpd_memcpy_var.0:30", "vpd_memset.0:130", "vpe_memcpy.0:30"])
+    state = "%d nameserver(s), %d request(s)%s, max-inflight %d, attempts %d" % (nns, nreq, " over TCP" if tcp else "", maxinf, attempts)
+    d = dict(name=name, harness="C34_lifecycle.c", entry=entry, desc="%s [state: %s]" % (desc, state), defines=defs, unwind=5,
+             cbmc=["--memory-leak-check", "--object-bits", "10", "--max-field-sensitivity-array-size", "136"], timeout=900, mem_gb=3,
+             unwindset=list(US))
     d.update(kw)
     return d
 
+RCLASS = {(0, 0, 1, 1): "an answer", (0, 0, 1, 0): "no answer (NODATA)", (0, 0, 0, 0): "an unparsable reply", (1, 0, 1, 0): "FORMERR",
+          (2, 0, 1, 0): "SERVFAIL", (3, 0, 1, 0): "NXDOMAIN", (4, 0, 1, 0): "NOTIMPL", (5, 0, 1, 0): "REFUSED", (9, 0, 1, 0): "an unknown rcode",
+          (0, 1, 1, 1): "a truncated reply"}
+
+def reply(rc, tc, hr, ha, nns, nreq, maxinf, j=0, tcp=False, **kw):
+    n = "reply_rc%d_tc%d_r%d_a%d_ns%d_q%d_inf%d_j%d%s" % (rc, tc, hr, ha, nns, nreq, maxinf, j, "_tcp" if tcp else "")
+    return ob(n, "harness_reply", "reply_handle with %s for request %d: callback exactly once with the reply's outcome if it terminates the request "
+              "(SERVFAIL = timeout with transmissions left, NOTIMPL/REFUSED = reissue to another nameserver, TC = TCP retry go on without callback); "
+              "tables consistent; clean free afterwards" % (RCLASS[(rc, tc, hr, ha)], j), nns=nns, nreq=nreq, maxinf=maxinf, attempts=2, tcp=tcp,
+              extra=["C34_J=%d" % j, "C34_RCODE=%d" % rc, "C34_TCBIT=%d" % tc, "C34_HAVE_REPLY=%d" % hr, "C34_HAVE_ANSWER=%d" % ha], **kw)
+
 def obligations(tier):
+    full = tier != "quick"
     obs = []
-    # cancel: which request (J), twice, both
-    for (nns, maxinf, j, twice, both) in [(2, 2, 0, 0, 0), (2, 2, 1, 1, 0), (1, 1, 0, 0, 0), (1, 1, 1, 0, 0), (1, 1, 0, 1, 1), (2, 2, 1, 0, 1)]:
-        obs.append(ob("cancel_ns%d_inf%d_j%d_t%d_b%d" % (nns, maxinf, j, twice, both), "harness_cancel", "cancel", nns=nns, nreq=2, maxinf=maxinf,
-                      extra=["C34_J=%d" % j, "C34_TWICE=%d" % twice, "C34_BOTH=%d" % both]))
-    obs.append(ob("timeout_att1", "harness_timeout", "timeout", nns=2, nreq=2, maxinf=2, attempts=1, extra=["C34_J=0", "C34_J2=1"]))
-    obs.append(ob("timeout_att2", "harness_timeout", "timeout", nns=2, nreq=2, maxinf=2, attempts=2, extra=["C34_J=1", "C34_J2=1"]))
-    obs.append(ob("timeout_tcp_together", "harness_timeout_tcp", "tcp", nns=1, nreq=2, maxinf=2, attempts=2, tcp=True, extra=["C34_J=1", "C34_STAGGER=0"]))
-    obs.append(ob("timeout_tcp_stagger_kf", "harness_timeout_tcp", "tcp", nns=1, nreq=1, maxinf=2, attempts=2, tcp=True, extra=["C34_STAGGER=1"]))
-    for rc, tc, hr, ha in [(0, 0, 1, 1), (0, 0, 1, 0), (0, 0, 0, 0), (1, 0, 1, 0), (2, 0, 1, 0), (3, 0, 1, 0), (4, 0, 1, 0), (5, 0, 1, 0), (9, 0, 1, 0), (0, 1, 1, 1)]:
-        obs.append(ob("reply_rc%d_tc%d_r%d_a%d" % (rc, tc, hr, ha), "harness_reply", "reply", nns=2, nreq=2, maxinf=2, attempts=2,
-                      extra=["C34_J=0", "C34_RCODE=%d" % rc, "C34_TCBIT=%d" % tc, "C34_HAVE_REPLY=%d" % hr, "C34_HAVE_ANSWER=%d" % ha]))
-    obs.append(ob("free_fail", "harness_free", "free", nns=2, nreq=2, maxinf=1, extra=["C34_FAIL=1", "C34_CANCEL0=0"]))
-    obs.append(ob("txid", "harness_txid", "txid", nns=1, nreq=2, maxinf=2))
+    # ---- cancel
+    cs = [(2, 2, 0, 0, 0), (2, 2, 1, 1, 0), (1, 1, 0, 0, 0), (1, 1, 1, 0, 0), (1, 1, 0, 1, 1), (2, 2, 1, 0, 1)]
+    if full: cs += [(1, 2, 0, 1, 1), (2, 1, 1, 1, 1), (2, 1, 0, 0, 0), (1, 2, 1, 0, 0)]
+    for (nns, maxinf, j, twice, both) in cs:
+        obs.append(ob("cancel_ns%d_inf%d_j%d_t%d_b%d" % (nns, maxinf, j, twice, both), "harness_cancel",
+                      "evdns_cancel_request on request %d%s%s: DNS_ERR_CANCEL exactly once per cancelled request (deferred), none for the other; a waiting "
+                      "request is promoted (fresh id, timer); tables consistent; clean free" % (j, ", twice" if twice else "", ", then on the other one" if both else ""),
+                      nns=nns, nreq=2, maxinf=maxinf, extra=["C34_J=%d" % j, "C34_TWICE=%d" % twice, "C34_BOTH=%d" % both]))
+    # ---- timeouts (UDP)
+    ts = [(1, 0, 1, 2, 2), (2, 1, 1, 2, 2), (2, 0, 0, 1, 1), (1, 0, 0, 2, 1)]
+    if full: ts += [(2, 0, 1, 2, 2), (2, 1, 0, 1, 2), (1, 1, 0, 1, 1), (2, 0, 0, 2, 1)]
+    for (att, j, j2, nns, maxinf) in ts:
+        obs.append(ob("timeout_att%d_j%d%d_ns%d_inf%d" % (att, j, j2, nns, maxinf), "harness_timeout",
+                      "timer of request %d, then of request %d fires: give up (DNS_ERR_TIMEOUT exactly once) iff the request was sent `attempts` times, else "
+                      "retransmit (no callback, tx_count+1, timer pending); tables consistent; clean free" % (j, j2),
+                      nns=nns, nreq=2, maxinf=maxinf, attempts=att, extra=["C34_J=%d" % j, "C34_J2=%d" % j2]))
+    # ---- timeouts (TCP): finding KF-C34-tcp-retransmit-uaf
+    obs.append(ob("timeout_tcp_together", "harness_timeout_tcp",
+                  "TCP: timer of request 1 fires while both requests have transmissions left: connection torn down, both retransmitted, no callback "
+                  "(the KF-C34-tcp-retransmit-uaf shape -- a request without transmissions left on the same nameserver -- excluded)",
+                  nns=1, nreq=2, maxinf=2, attempts=2, tcp=True, extra=["C34_J=1", "C34_STAGGER=0"]))
+    obs.append(ob("timeout_tcp_stagger_kf", "harness_timeout_tcp",
+                  "TCP: request 0 was retransmitted once (2 of 2 transmissions), then request 1 is made and its timer fires: request 0 must be given up "
+                  "exactly once (DNS_ERR_TIMEOUT), request 1 retransmitted, no access to freed memory [KF-C34-tcp-retransmit-uaf]",
+                  nns=1, nreq=1, maxinf=2, attempts=2, tcp=True, extra=["C34_STAGGER=1"],
+                  expect_fail=["deallocated dynamic object in req->next", "unwinding assertion loop 0"], known_finding="KF-C34-tcp-retransmit-uaf"))
+    # ---- replies
+    rs = [(0, 0, 1, 1), (0, 0, 1, 0), (2, 0, 1, 0), (3, 0, 1, 0), (5, 0, 1, 0)]
+    if full: rs += [(0, 0, 0, 0), (1, 0, 1, 0), (4, 0, 1, 0), (9, 0, 1, 0)]
+    for (rc, tc, hr, ha) in rs:
+        obs.append(reply(rc, tc, hr, ha, 2, 2, 2))
+    obs.append(reply(5, 0, 1, 0, 1, 2, 2, j=1))            # REFUSED with a single nameserver: terminates
+    obs.append(reply(0, 0, 1, 1, 1, 2, 1, j=0))            # answer for the inflight one, the waiting one is promoted
+    obs.append(reply(0, 1, 1, 1, 2, 2, 2, tcp=True))       # truncated reply to a request that is already on TCP: DNS_ERR_TRUNCATED
+    if full:
+        obs.append(reply(2, 0, 1, 0, 1, 1, 2)); obs.append(reply(4, 0, 1, 0, 1, 2, 2, j=1)); obs.append(reply(3, 0, 1, 0, 1, 2, 1))
+    # TC -> TCP fallback: finding KF-C34-tcp-fallback-stall (inflight == max-inflight when the truncated reply arrives)
+    obs.append(reply(0, 1, 1, 1, 2, 1, 2))                 # room inflight: fine
+    obs.append(reply(0, 1, 1, 1, 2, 2, 2, expect_fail=["C34: request left in the waiting queue although there is room inflight"],
+                     known_finding="KF-C34-tcp-fallback-stall"))
+    if full:
+        obs.append(reply(0, 1, 1, 1, 1, 1, 1, expect_fail=["C34: request left in the waiting queue although there is room inflight"],
+                         known_finding="KF-C34-tcp-fallback-stall"))
+    # ---- free
+    for fail in (1, 0):
+        for c0 in (0, 1):
+            for maxinf in ((1, 2) if full else ((1,) if c0 else (2,))):
+                obs.append(ob("free_fail%d_cancel%d_inf%d" % (fail, c0, maxinf), "harness_free",
+                              "evdns_base_free(fail_requests=%d)%s: %s; no event left pending, sockets closed, scheduled callbacks touch no freed "
+                              "memory, no leak" % (fail, " after request 0 was cancelled" if c0 else "",
+                                                   "DNS_ERR_SHUTDOWN exactly once per live request" if fail else "no callback for live requests"),
+                              nns=2, nreq=2, maxinf=maxinf, extra=["C34_FAIL=%d" % fail, "C34_CANCEL0=%d" % c0]))
+    # ---- transaction ids
+    for nreq in (1, 2):
+        obs.append(ob("txid_q%d" % nreq, "harness_txid",
+                      "transaction_id_pick with solver-chosen RNG bytes and %d request(s) inflight: result != 0xffff and != every inflight id" % nreq,
+                      nns=1, nreq=nreq, maxinf=2))
+    if full:
+        for o in list(obs):
+            if o["name"] in ("cancel_ns1_inf1_j0_t1_b1", "timeout_att2_j11_ns2_inf2", "free_fail1_cancel0_inf2", "reply_rc0_tc0_r1_a1_ns2_q2_inf2_j0"):
+                t = dict(o); t["name"] += "_ndebug"; t["ndebug"] = True; t["desc"] += " [NDEBUG build]"; obs.append(t)
+                t = dict(o); t["name"] += "_locks"; t["defines"] = o["defines"] + ["VP_LOCKS_ON"]; t["desc"] += " [lock monitor on: every lock released, no re-entry of a non-recursive lock]"; obs.append(t)
     return obs
